@@ -108,6 +108,19 @@ theorem paramChangesAllowed_eq_all (allowed : String → Bool) (incoming : Strin
       simp only [Bool.not_eq_true] at h
       simp only [h, Bool.not_false, Bool.true_and]
 
+theorem keysAllKnown_eq_all (inCurrent : String → Bool) (l : List (String × String)) :
+    keysAllKnown inCurrent l = l.all (fun kv => inCurrent kv.1) := by
+  induction l with
+  | nil => rfl
+  | cons x xs ih =>
+    obtain ⟨k, v⟩ := x
+    unfold keysAllKnown
+    simp only [List.all_cons]
+    by_cases h : inCurrent k = true
+    · simp only [h, Bool.not_true, Bool.false_eq_true, ite_false, ih, Bool.true_and]
+    · simp only [Bool.not_eq_true] at h
+      simp only [h, Bool.not_false, ite_true, Bool.false_and]
+
 /-- `sharesBroken` is the sticky flag or-ed with the existential quantifier over the entries -/
 theorem sharesBroken_eq_any (b0 : Bool) (l : List (String × Int × Int)) :
     sharesBroken b0 l = (l.any (fun e => e.2.1 != e.2.2) || b0) := by
